@@ -339,10 +339,17 @@ class C14(Harness):
             RT = W.load(PANEL + ".compose").SeriesToSeriesRowTransformer
 
             class Tr(TB):
+                """a transformer with fitted state: it learns a reference (the instance's first value) in fit"""
+
+                def fit(self, Z, X=None):
+                    self.ref_ = S(np.asarray(Z)[0, 0])
+                    self._is_fitted = True
+                    return self
+
                 def transform(self, Z, X=None):
                     a = np.empty(Z.shape, dtype=object if sym else float)
                     for idx in np.ndindex(Z.shape):
-                        a[idx] = W.uf("rowt", [Z[idx]], "r>r")
+                        a[idx] = W.uf("rowt2", [Z[idx], self.ref_], "rr>r")
                     return a
 
             r = RT(Tr(), check_transformer=True).fit(X).transform(X)
@@ -661,7 +668,7 @@ class C14(Harness):
                 for j in range(nc):
                     P.check("requested-length", len(out["cells"][i][j]) == Ln)
                     for a, v in zip(out["cells"][i][j], x[i][j]):
-                        P.eq("row-transformer", a, W.uf("rowt", [v], "r>r"))
+                        P.eq("row-transformer", a, W.uf("rowt2", [v, x[i][0][0]], "rr>r"))  # (fitted on the instance's own series)
             return
         if k == "slope":
             for i in range(ni):
